@@ -330,7 +330,16 @@ def _graph_ops(cx: Ctx, M, m, n, P, poly_faces=None):
 
     def f_adj(opts, out):
         wname = opts["weights"]
-        w = {"one": "one", "length": "length", "dict": dict(wdict)}[wname]
+        # "dict_rev": the same mapping edge id -> weight, inserted in decreasing edge order (a dict's insertion order
+        # must not matter); "attr": the same values as a sparse edge Attribute
+        if wname == "attr":
+            from mouette.mesh.mesh_attributes import Attribute
+            w = Attribute(float)
+            for e_ in range(me):
+                w[e_] = wdict[e_]
+        else:
+            w = {"one": "one", "length": "length", "dict": dict(wdict),
+                 "dict_rev": {e_: wdict[e_] for e_ in reversed(range(me))}}[wname]
         o = _lib_call(rep, "adjacency_matrix", M.operators.adjacency_matrix, m, w)
         if not o.ok:
             out.append(("adjacency.answers", exc_kind(o), {"msg": o.msg[:200]})); return
@@ -356,7 +365,7 @@ def _graph_ops(cx: Ctx, M, m, n, P, poly_faces=None):
         bad = _cmp(_dense(mat), want)
         if bad:
             out.append(("adjacency.weights", "mismatch:entry", bad))
-    cx.sweep("adjacency_matrix", {"weights": ["one", "length", "dict"]}, f_adj)
+    cx.sweep("adjacency_matrix", {"weights": ["one", "length", "dict", "dict_rev"]}, f_adj)
 
     o = _lib_call(rep, "graph_laplacian", M.operators.graph_laplacian, m)
     rep.case((cx.key, "graph_laplacian"))
@@ -985,7 +994,7 @@ def finish(tier, rep: Report):
         "volume_weight_matrix": {"inverse": [False, True], "sqrt": [False, True], "format": FORMATS},
         "volume_weight_matrix_cells": {"inverse": [False, True], "sqrt": [False, True], "format": FORMATS},
         "cotan_edge_diagonal": {"inverse": [True, False]},
-        "adjacency_matrix": {"weights": ["one", "length", "dict"]},
+        "adjacency_matrix": {"weights": ["one", "length", "dict", "dict_rev"]},
         "vertex_to_edge_operator": {"oriented": [False, True]},
     }
     for callee, sp in want_opts.items():
